@@ -200,7 +200,9 @@ class DiskCache:
             self._cache.delete(key + self._HMAC_SUFFIX)
             return False, None
 
-        if not hmac.compare_digest(stored_hmac, expected_hmac):
+        # Compare as bytes: compare_digest() refuses str arguments with non-ASCII
+        # characters, and a damaged signature may contain anything.
+        if not hmac.compare_digest(stored_hmac.encode("utf-8", "surrogatepass"), expected_hmac.encode("utf-8")):
             logger.warning(
                 "Cache HMAC mismatch for key %s — possible tampering, evicting",
                 key,
